@@ -6,6 +6,8 @@
  "mode": "harness",
  "link_repo": ["type.c"],
  "unwind": 4,
+ "variants": {"MUL": ["-DV_TOK=TMULASSIGN"], "DIV": ["-DV_TOK=TDIVASSIGN"], "MOD": ["-DV_TOK=TMODASSIGN"], "ADD": ["-DV_TOK=TADDASSIGN"], "SUB": ["-DV_TOK=TSUBASSIGN"], "SHL": ["-DV_TOK=TSHLASSIGN"], "SHR": ["-DV_TOK=TSHRASSIGN"], "BAND": ["-DV_TOK=TBANDASSIGN"], "XOR": ["-DV_TOK=TXORASSIGN"], "BOR": ["-DV_TOK=TBORASSIGN"]},
+ "canary_variant": "SHL",
  "kind": "proof-const-unwind",
  "timeout": 200,
  "assumes": ["condexpr() is a stand-in returning the two operands the harness built (left: an int or unsigned lvalue identifier with arbitrary qualifiers; right: an int constant); next() advances a two-token script; eval() is the identity",
@@ -44,7 +46,8 @@ harness(void)
 	static struct decl d;
 	static struct expr l0, r0;
 	struct expr *e, *a1, *a2, *tmp, *lv, *bin, *bl;
-	IN(int, in_tok); IN(int, in_qual); IN(bool, in_unsigned);
+	int in_tok = V_TOK;     /* one run per compound operator */
+	IN(int, in_qual); IN(bool, in_unsigned);
 	enum tokenkind want;
 
 	switch (in_tok) {
